@@ -108,7 +108,7 @@ def main(tier=None, replay=None):
                                  "on_level_small": -50}, c)
             ck.count(("cm-section", label), True)
             sec, lev = [], []
-            for h0 in (0.01, 0.04, 0.16):
+            for h0 in (0.0025, 0.01, 0.04):        # r = sqrt(h0) = 0.05, 0.1, 0.2 (r = 0.4 is outside the asymptotic regime)
                 rr = math.sqrt(h0)
                 pt = (0.15 * rr, -0.1 * rr)
                 s = np.asarray(cm.to_synodic(np.array(pt), energy=h0, section_coord=sc), dtype=float)
